@@ -650,6 +650,12 @@ func isRedactableFieldPatternInArray(arr []any) bool {
 }
 
 func redactArrayValuesWithKey(parentKey string, arr []any, redactFieldNames bool, isSearchStage bool, isSelectivelyRedactable bool, keyPath []string) []any {
+	// Scalars in the array are judged by the whole path down to the array, so that a
+	// --redactFieldsRegexp match on an ancestor ({ssn: {$in: [...]}}) is not lost.
+	scalarKeyPath := keyPath
+	if len(keyPath) == 0 || (parentKey != "" && keyPath[len(keyPath)-1] != parentKey) {
+		scalarKeyPath = append(slices.Clone(keyPath), parentKey)
+	}
 	for i, item := range arr {
 		switch itemTyped := item.(type) {
 		case *orderedmap.OrderedMap[string, any]:
@@ -669,7 +675,7 @@ func redactArrayValuesWithKey(parentKey string, arr []any, redactFieldNames bool
 						arr[i] = item
 					}
 				} else {
-					arr[i] = redactScalarValue([]string{parentKey}, item, isSearchStage, isSelectivelyRedactable)
+					arr[i] = redactScalarValue(scalarKeyPath, item, isSearchStage, isSelectivelyRedactable)
 				}
 			}
 		}
